@@ -173,9 +173,35 @@ def _run_harness_chunk(reqs, per_req_timeout):
         except Exception:
             pass
         if i < len(reqs):
-            out.append({"hang": True} if status == "hang" else {"abort": f"rc={p.returncode} {err[-300:].decode('utf-8', 'replace')}"})
+            if status == "hang":
+                out.append(_confirm_hang(reqs[i], per_req_timeout))
+            else:
+                out.append({"abort": f"rc={p.returncode} {err[-300:].decode('utf-8', 'replace')}"})
             i += 1
     return out
+
+
+_HANG_RETRIES = {"left": 6}
+
+
+def _confirm_hang(req, per_req_timeout):
+    """A request did not answer in time. On a loaded machine that is not yet a hang: run it once more, alone, with four times
+    the budget (only for the first few suspected hangs of a process, so that a change that makes many inputs hang is still
+    reported in reasonable time)."""
+    if _HANG_RETRIES["left"] <= 0:
+        return {"hang": True}
+    _HANG_RETRIES["left"] -= 1
+    try:
+        p = subprocess.run([HARNESS_BIN], input=json.dumps(req) + "\n", stdout=subprocess.PIPE, stderr=subprocess.PIPE,
+                           text=True, timeout=min(4 * per_req_timeout, 600), errors="replace")
+        line = p.stdout.strip().split("\n")[0] if p.stdout.strip() else ""
+        if line:
+            return json.loads(line)
+        return {"abort": f"rc={p.returncode} {p.stderr[-300:]}"}
+    except subprocess.TimeoutExpired:
+        return {"hang": True}
+    except Exception as e:
+        return {"abort": str(e)[:200]}
 
 
 def run_harness(reqs, per_req_timeout=10.0, jobs=None):
